@@ -8,6 +8,7 @@ import gc
 import io
 import json
 import os
+import re
 import warnings
 
 import common
@@ -116,10 +117,16 @@ class World:
                     elif op['op'] == 'regp':
                         P.register_pretty(predicate=self.preds[op['q']])(PRINTERS[op['p']])
                     elif op['op'] == 'print':
-                        out = P.pformat(self.cls[op['c']]())
-                        e['res'] = {'P1': 1, 'P2': 2, 'REPR': 0}.get(out, -1)
+                        # the instance reaches its printer bare, inside containers and through the comment wrappers:
+                        # WHICH printer is used must not depend on that
+                        inst = self.cls[op['c']]()
+                        form = FORMS[(len(events) + len(ops)) % len(FORMS)]
+                        out = P.pformat(form[1](inst))
+                        marks = re.findall(r'P1|P2|REPR', out)
+                        e['res'] = {'P1': 1, 'P2': 2, 'REPR': 0}[marks[0]] if len(marks) == 1 else -1
                         if e['res'] == -1:
                             e['raw'] = out[:80]
+                        e['form'] = form[0]
                     elif op['op'] == 'isreg':
                         try:
                             r = P.is_registered(self.cls[op['c']], check_superclasses=e['cs'],
@@ -133,6 +140,11 @@ class World:
             e['proj'] = self.projection()
             events.append(e)
         return events
+
+
+FORMS = [('bare', lambda x: x), ('in a list', lambda x: [x]), ('comment()', lambda x: P.comment(x, 'c')),
+         ('trailing_comment()', lambda x: P.trailing_comment(x, 't')), ('dict value', lambda x: {'k': x}),
+         ('trailing_comment() in a list', lambda x: [P.trailing_comment(x, 't')]), ('bare', lambda x: x)]
 
 
 def execute(histories):
@@ -155,7 +167,8 @@ def show(ops):
         elif o['op'] == 'regp':
             out.append('regp(%s,p%d)' % (o['q'], o['p']))
         elif o['op'] == 'print':
-            out.append('print(%s)' % o['c'] + ('->%s' % o['res'] if 'res' in o else ''))
+            out.append('print(%s%s)' % (o['c'], ' ' + o['form'] if o.get('form', 'bare') != 'bare' else '')
+                       + ('->%s' % o['res'] if 'res' in o else ''))
         else:
             out.append('isreg(%s,cs=%d,cd=%d,rd=%d)' % (o['c'], o['cs'], o['cd'], o['rd'])
                        + ('->%s' % o['res'] if 'res' in o else ''))
